@@ -224,6 +224,310 @@ def new_guard():
     return kind
 
 
+# ---------------------------------------------------------------------------------------------------------------
+# translated tie 1: the text that the real _compile_* generators emit, parsed into the model's GenShape
+
+
+def parse_generated(cls):
+    """GenShape of a vp_compile'd class from the source text of its three generated functions (kept in
+    code.co_filename); None when a text is unavailable or has a shape outside the subset below.
+    Subset: `def __init__(self, p.., p=<expr>..): Payload.__init__(self); self.a = a ...`,
+            `def from_unpack_list(cls, p..): return cls(<p | None if p is None else cls.fix_unpack_p(p) | equivalent>..)`,
+            `def to_pack_list(self): return [("<tag>", <self.a | self.fix_pack_a(self.a)>..), ..]`"""
+    try:
+        srcs = [cls.__init__.__code__.co_filename, cls.from_unpack_list.__func__.__code__.co_filename,
+                cls.to_pack_list.__code__.co_filename]
+        fi, fu, fp = (ast.parse(x).body[0] for x in srcs)
+    except Exception:  # noqa: BLE001
+        return None
+    if not all(isinstance(t, ast.FunctionDef) for t in (fi, fu, fp)):
+        return None
+    a = fi.args
+    if a.vararg or a.kwarg or a.kwonlyargs or a.posonlyargs:
+        return None
+    params = [x.arg for x in a.args][1:]
+    nd = len(a.defaults)
+    init_params = [(p, j >= len(params) - nd) for j, p in enumerate(params)]
+    body = list(fi.body)
+    if not (body and isinstance(body[0], ast.Expr) and ast.unparse(body[0]) == "Payload.__init__(self)"):
+        return None
+    setters = []
+    for st in body[1:]:
+        if (isinstance(st, ast.Assign) and len(st.targets) == 1 and isinstance(st.targets[0], ast.Attribute)
+                and isinstance(st.targets[0].value, ast.Name) and st.targets[0].value.id == "self"
+                and isinstance(st.value, ast.Name)):
+            setters.append((st.targets[0].attr, st.value.id))
+        else:
+            return None
+    if fu.args.vararg or fu.args.kwarg or len(fu.body) != 1:
+        return None
+    uparams = [x.arg for x in fu.args.args][1:]
+    ret = fu.body[0]
+    if not (isinstance(ret, ast.Return) and isinstance(ret.value, ast.Call) and ast.unparse(ret.value.func) == "cls"
+            and not ret.value.keywords):
+        return None
+    uargs = []
+    for x in ret.value.args:
+        if isinstance(x, ast.Name):
+            uargs.append((x.id, False))
+        elif isinstance(x, ast.IfExp) and isinstance(x.test, ast.Compare) and isinstance(x.test.left, ast.Name):
+            n = x.test.left.id
+            if ast.unparse(x) not in (f"None if {n} is None else cls.fix_unpack_{n}({n})",
+                                      f"cls.fix_unpack_{n}({n}) if {n} is not None else None"):
+                return None
+            uargs.append((n, True))
+        else:
+            return None
+    if fp.args.args[1:] or len(fp.body) != 1:
+        return None
+    ret = fp.body[0]
+    if not (isinstance(ret, ast.Return) and isinstance(ret.value, ast.List)):
+        return None
+    entries = []
+    for t in ret.value.elts:
+        if not (isinstance(t, ast.Tuple) and t.elts and isinstance(t.elts[0], ast.Constant) and isinstance(t.elts[0].value, str)):
+            return None
+        parts = []
+        for x in t.elts[1:]:
+            u = ast.unparse(x)
+            if isinstance(x, ast.Attribute) and u == f"self.{x.attr}":
+                parts.append((x.attr, False))
+            elif isinstance(x, ast.Call) and len(x.args) == 1 and isinstance(x.args[0], ast.Attribute) \
+                    and u == f"self.fix_pack_{x.args[0].attr}(self.{x.args[0].attr})":
+                parts.append((x.args[0].attr, True))
+            else:
+                return None
+        entries.append((t.elts[0].value, parts))
+    return {"initParams": init_params, "setters": setters, "unpackParams": uparams, "unpackArgs": uargs,
+            "packEntries": entries}
+
+
+def lbool(b) -> str:
+    return "true" if b else "false"
+
+
+def lean_shape(sh) -> str:
+    return ("{ initParams := " + llist(f"({lstr(n)}, {lbool(d)})" for n, d in sh["initParams"])
+            + ",\n      setters := " + llist(f"({lstr(a)}, {lstr(b)})" for a, b in sh["setters"])
+            + ",\n      unpackParams := " + llist(lstr(n) for n in sh["unpackParams"])
+            + ",\n      unpackArgs := " + llist(f"({lstr(n)}, {lbool(g)})" for n, g in sh["unpackArgs"])
+            + ",\n      packEntries := " + llist(
+                f"({lstr(t)}, " + llist(f"({lstr(n)}, {lbool(h)})" for n, h in ps) + ")" for t, ps in sh["packEntries"])
+            + " }")
+
+
+def lean_sdef(name, fmts, names, user_init, defaults, fp, fu) -> str:
+    ui = "none" if user_init is None else f"some {lbool(user_init)}"
+    return ("{ name := " + lstr(name) + ", fmts := " + llist(lean_fmt(f) for f in fmts)
+            + ",\n      names := " + llist(lstr(n) for n in names) + ", userInit := " + ui
+            + ", defaults := " + llist(lstr(n) for n in defaults)
+            + ", fixPack := " + llist(lstr(n) for n in fp) + ", fixUnpack := " + llist(lstr(n) for n in fu) + " }")
+
+
+def compiled_battery():
+    """[(sdef fields, shape)]: a fixed battery of synthetic definitions covering every branch of the three generators
+    (bits first / middle / last, nested class, payload list, pack / unpack hooks also on bits names and inherited from
+    a base class, user __init__ with defaults with and without **kwargs and keyword-only, inherited user __init__, old-style
+    superclass, 12 fields), compiled with the REAL vp_compile, plus every shipped compiled class"""
+    if str(REPO) not in sys.path:
+        sys.path.insert(0, str(REPO))
+    from ipv8.messaging.lazy_payload import VariablePayload, vp_compile
+    from ipv8.messaging.serialization import Payload
+
+    class Inner(VariablePayload):
+        format_list = ["I"]
+        names = ["x"]
+
+    def hook(self, v):
+        return v
+
+    def mk(name, fmts, names, fp=(), fu=(), init=None, defaults=(), kwonly=0, base_hooks=False, old_style=0,
+           inherit_init=False):
+        ns = {}
+        hooks = {}
+        for n in fp:
+            hooks["fix_pack_" + n] = hook
+        for n in fu:
+            hooks["fix_unpack_" + n] = classmethod(lambda cls, v: v)
+        if init is not None:
+            plist = [f"{n}=None" if n in defaults else n for n in names]
+            if kwonly:
+                plist.insert(len(plist) - kwonly, "*")
+            src = f"def __init__(self, {', '.join(plist)}{', **kwargs' if init else ''}):\n" \
+                  f"    _VP.__init__(self, {', '.join(names)}{', **kwargs' if init else ''})\n"
+            env = {"_VP": VariablePayload}
+            exec(src, env)
+            ns["__init__"] = env["__init__"]
+        bases = (VariablePayload,)
+        if old_style:
+            osrc = f"def __init__(self, {', '.join(names[:old_style])}):\n" + "".join(
+                f"    self.{n} = {n}\n" for n in names[:old_style])
+            oenv = {}
+            exec(osrc, oenv)
+            old = type("Old" + name, (Payload,), {"format_list": list(fmts[:old_style]), "__init__": oenv["__init__"],
+                                                  "to_pack_list": lambda self: [],
+                                                  "from_unpack_list": classmethod(lambda cls, *a: cls(*a))})
+            bases = (VariablePayload, old)
+        if base_hooks or inherit_init:
+            base = type("Base" + name, bases, {**hooks, **({"__init__": ns.pop("__init__")} if inherit_init else {}),
+                                               "format_list": list(fmts), "names": list(names)})
+            bases = (base,)
+            if base_hooks:
+                hooks = {}
+        ns.update(hooks)
+        ns.update({"format_list": list(fmts), "names": list(names)})
+        cls = vp_compile(type(name, bases, ns))
+        return (name, fmts, names, (None if init is None else bool(init)), list(defaults), sorted(fp), sorted(fu)), cls
+
+    b8 = [f"b{i}" for i in range(8)]
+    specs = [
+        mk("Two", ["I", "H"], ["a", "b"]),
+        mk("BitsFirst", ["bits", "I"], [*b8, "z"]),
+        mk("BitsMiddle", ["I", "bits", "varlenH"], ["a", *b8, "z"], fp=["b3"], fu=["b5", "z"]),
+        mk("BitsLast", ["varlenH", "bits"], ["a", *b8]),
+        mk("TwoBits", ["bits", "bits"], [*b8, *[f"c{i}" for i in range(8)]], fp=["c0"]),
+        mk("Nested", ["I", Inner, "H"], ["a", "p", "z"]),
+        mk("NestedList", [[Inner], "I"], ["ps", "a"], fu=["ps"]),
+        mk("PackHooks", ["I", "H", "B"], ["a", "b", "c"], fp=["a", "c"]),
+        mk("UnpackHooks", ["I", "H", "B"], ["a", "b", "c"], fu=["b"]),
+        mk("BothHooks", ["I", "H"], ["a", "b"], fp=["a", "b"], fu=["a", "b"]),
+        mk("InheritedHooks", ["I", "H"], ["a", "b"], fp=["a"], fu=["b"], base_hooks=True),
+        mk("DefaultsKw", ["I", "H", "B"], ["a", "b", "c"], init=True, defaults=["b", "c"]),
+        mk("DefaultsNoKw", ["I", "H"], ["a", "b"], init=False, defaults=["a", "b"]),
+        mk("InitNoDefaults", ["I", "H"], ["a", "b"], init=False),
+        mk("KeywordOnly", ["I", "H", "B"], ["a", "b", "c"], init=False, defaults=["b", "c"], kwonly=2),
+        mk("InheritedInit", ["I", "H"], ["a", "b"], init=True, defaults=["b"], inherit_init=True),
+        mk("OldStyle", ["I", "H", "B"], ["a", "b", "c"], old_style=2),
+        mk("Twelve", ["I", "H", "bits", "varlenH", Inner, [Inner], "q", "?", "20s", "raw"],
+           ["f0", "f1", *b8, "f3", "f4", "f5", "f6", "f7", "f8", "f9"], fp=["f0", "b7", "f9"], fu=["f1", "f4", "f5"]),
+    ]
+    out, skipped = [], 0
+    for sd, cls in specs:
+        sh = parse_generated(cls)
+        if sh is None:
+            skipped += 1
+            continue
+        out.append((sd, sh))
+    for c in shipped_classes():
+        if not c.names or c.to_pack_list is VariablePayload.to_pack_list:
+            continue
+        sh = parse_generated(c)
+        if sh is None:
+            skipped += 1
+            continue
+        try:
+            varkw, dflt = class_init_info(c)
+        except UnsupportedInit:
+            continue
+        # defaults as the compiled signature shows them (what the model's sigDefaults must reproduce)
+        sd = (f"{c.__module__}.{c.__qualname__}", c.format_list, c.names, varkw, dflt,
+              sorted(a[len("fix_pack_"):] for a in dir(c) if a.startswith("fix_pack_")),
+              sorted(a[len("fix_unpack_"):] for a in dir(c) if a.startswith("fix_unpack_")))
+        out.append((sd, sh))
+    return out, skipped
+
+
+# ---------------------------------------------------------------------------------------------------------------
+# translated tie 2: what the real convert_to_payload makes of a battery of dataclasses
+
+
+def lean_ty(t) -> str:
+    kind = t[0]
+    if kind in ("bool", "int", "float", "bytes", "str", "other"):
+        return "." + kind
+    if kind == "tvar":
+        return f"(.tvar {lstr(t[1])})"
+    if kind == "ser":
+        return f"(.ser {lstr(t[1])})"
+    if kind == "lit":
+        return f"(.lit {lstr(t[1])})"
+    if kind == "coll":
+        return f"(.coll .{t[1]} {lean_ty(t[2])})"
+    raise TranslatorError(f"type {t!r}")
+
+
+def dataclass_battery():
+    """[(name, fields as (name, Ty-data, has default), user unpack rules, result)] from the REAL DataClassPayload"""
+    import dataclasses
+    if str(REPO) not in sys.path:
+        sys.path.insert(0, str(REPO))
+    from ipv8.messaging.lazy_payload import VariablePayload
+    from ipv8.messaging.payload_dataclass import DataClassPayload, type_from_format
+
+    class Item(VariablePayload):
+        format_list = ["I"]
+        names = ["x"]
+
+    py = {"bool": bool, "int": int, "float": float, "bytes": bytes, "str": str}
+
+    def ann(t):
+        k = t[0]
+        if k in py:
+            return py[k]
+        if k == "other":
+            return dict
+        if k == "tvar":
+            return type_from_format(t[1])
+        if k == "ser":
+            return Item
+        if k == "lit":
+            return [Item]
+        if k == "coll":
+            g = {"list": list, "tuple": tuple, "set": set}[t[1]]
+            return tuple[ann(t[2]), ...] if t[1] == "tuple" and t[3:] == ("ellipsis",) else g[ann(t[2])]
+        raise TranslatorError(str(t))
+
+    S = ("ser", "Item")
+    cases = [
+        ("Natives", [("a", ("bool",)), ("b", ("int",)), ("c", ("float",)), ("d", ("bytes",)), ("e", ("str",))], []),
+        ("TypeVars", [("a", ("tvar", "varlenH")), ("b", ("tvar", "c20s")), ("c", ("int",), True)], []),
+        ("Lists", [("a", ("coll", "list", ("int",))), ("b", ("coll", "list", ("bool",))), ("c", ("coll", "list", ("float",)))], []),
+        ("Tuples", [("a", ("coll", "tuple", ("int",), "ellipsis")), ("b", ("coll", "tuple", ("bool",)))], []),
+        ("Sets", [("a", ("coll", "set", ("float",))), ("b", ("int",)), ("c", ("coll", "set", ("int",)))], []),
+        ("NestedKinds", [("a", S), ("b", ("coll", "list", S)), ("c", ("coll", "tuple", S, "ellipsis")), ("d", ("lit", "Item"))], []),
+        ("UserRuleKept", [("a", ("coll", "tuple", ("int",))), ("b", ("coll", "set", ("int",))), ("c", ("coll", "list", ("int",)))], ["a", "c"]),
+        ("Unsupported", [("a", ("other",))], []),
+        ("ListOfUnsupported", [("a", ("int",)), ("b", ("coll", "list", ("other",)))], []),
+        ("ListOfList", [("a", ("coll", "list", ("coll", "list", ("int",))))], []),
+        ("ListOfTypeVar", [("a", ("coll", "list", ("tvar", "I")))], []),
+    ]
+    out = []
+    for name, fields, user in cases:
+        ns = {f"fix_unpack_{n}": staticmethod(sorted) for n in user}
+        spec = []
+        for f in fields:
+            n, t = f[0], f[1]
+            spec.append((n, ann(t), dataclasses.field(default=None)) if len(f) > 2 else (n, ann(t)))
+        cls = dataclasses.make_dataclass("Battery" + name, spec, bases=(DataClassPayload,), namespace=ns)
+        cls.__module__ = __name__
+        try:
+            cls.__new__(cls)
+        except Exception:  # noqa: BLE001
+            out.append((name, fields, user, None))
+            continue
+        derived = []
+        for n in cls.names:
+            h = getattr(cls, "fix_unpack_" + n, None)
+            kind = {"_to_tuple": "tuple", "_to_set": "set"}.get(getattr(h, "__name__", ""))
+            if kind:
+                derived.append((n, kind))
+        out.append((name, fields, user, (list(cls.format_list), list(cls.names), derived)))
+    return out
+
+
+def lean_dcase(name, fields, user, result) -> str:
+    fl = llist(f"({lstr(f[0])}, {lean_ty(f[1][:3] if f[1][0] == 'coll' else f[1])}, {lbool(len(f) > 2)})" for f in fields)
+    if result is None:
+        res = "none"
+    else:
+        fmts, names, derived = result
+        res = ("some (" + llist(lean_fmt(x) if isinstance(x, str) else
+                                (f".lst {lstr('Item')}" if isinstance(x, list) else f".cls {lstr('Item')}") for x in fmts)
+               + ", " + llist(lstr(n) for n in names) + ", " + llist(f"({lstr(n)}, .{k})" for n, k in derived) + ")")
+    return ("{ name := " + lstr(name) + ", fields := " + fl + ",\n      userUnpack := " + llist(lstr(n) for n in user)
+            + ", result := " + res + " }")
+
+
 def overlay_formats():
     out = []
     for path in sorted((REPO / "ipv8").rglob("*.py")):
@@ -283,6 +587,23 @@ def translate():
         meta["shipped_nested"] += any(not isinstance(f, str) for f in c.format_list)
     meta["import_failures"] = dict(IMPORT_FAILURES)
     out.append(",\n".join(rows))
+    out += ["]", ""]
+    battery, skipped = compiled_battery()
+    meta["compiled_battery"] = len(battery)
+    meta["compiled_battery_text_not_recognised"] = skipped
+    out.append("/-- was the emitted text of every battery member inside the parser's subset? -/")
+    out.append("def batteryTextRecognised : Bool := " + lbool(skipped == 0))
+    out.append("")
+    out.append("/-- (definition, shape of the code the REAL _compile_* generators emitted for it) -/")
+    out.append("def compiledBattery : List (SDef × GenShape) := [")
+    out.append(",\n".join("  (" + lean_sdef(*sd) + ",\n    " + lean_shape(sh) + ")" for sd, sh in battery))
+    out += ["]", ""]
+    dcs = dataclass_battery()
+    meta["dataclass_battery"] = len(dcs)
+    meta["dataclass_battery_refused"] = sum(1 for d in dcs if d[3] is None)
+    out.append("/-- dataclasses and what the REAL convert_to_payload produced for them -/")
+    out.append("def dataclassBattery : List DCase := [")
+    out.append(",\n".join("  " + lean_dcase(*d) for d in dcs))
     out += ["]", "", "end Ipv8.C20.Gen", ""]
     return "\n".join(out), meta
 
